@@ -1,5 +1,5 @@
 (* C15: evaluation of the model on recorded cases (correspondence check). *)
-From CJ Require Import Common.Base C15.Model C15.ModelName C15.ModelObf.
+From CJ Require Import Common.Base C15.Model C15.ModelName C15.ModelObf C15.ModelAny.
 
 Definition obs := (bool * bytes * bool * bytes)%type.
 
@@ -126,6 +126,33 @@ Definition chk_reveal (v : N) (c : bytes) (ok : bool) (out : bytes) : bool :=
          mok || negb ok       (* the model rejects (too short) -> the code rejects; authentication failures are the primitive's *)
   end.
 
+(* ---- URL-less Any ----
+   message types: 0 GenericTransportParams, 1 PrefixTransportParams, 2 DTLSTransportParams, 3 ClientToStation.
+   The wire codec is abstract in the model; here it is a stand-in that keeps the type with the fields, so a
+   value of one type never decodes as another (what protobuf does with such bytes is outside the model and
+   those cases are left unconstrained). *)
+Definition any_url_of (t : N) : string :=
+  match t with
+  | 0 => "type.googleapis.com/proto.GenericTransportParams"
+  | 1 => "type.googleapis.com/proto.PrefixTransportParams"
+  | 2 => "type.googleapis.com/proto.DTLSTransportParams"
+  | _ => "type.googleapis.com/proto.ClientToStation"
+  end%string.
+Definition st_msg := (N * list N)%type.
+Definition st_marshal (m : st_msg) : bytes := fst m :: snd m.
+Definition st_unmarshal (t : N) (b : bytes) : option st_msg :=
+  match b with k :: f => if k =? t then Some (k, f) else None | [] => None end.
+
+Definition chk_any (nilsrc : bool) (kind dst : N) (url : string) (fields : list N) (ok2 : bool) (fout : list N) (url_after : string) : bool :=
+  let src := if nilsrc then None else Some {| any_url := url; any_value := st_marshal (kind, fields) |} in
+  match unmarshal_anypb_to N st_msg any_url_of st_unmarshal src dst with
+  | Ok None => ok2 && forallb (N.eqb 0) fout
+  | Ok (Some (_, f)) => ok2 && list_eqb N.eqb f fout && String.eqb url_after (any_url_of dst)
+  | Err EWrongType => negb ok2
+  | Err EUnmarshal => true
+  | Panic => false
+  end.
+
 Inductive vcase :=
 | CFmt (op : N) (d : bspec) (o : obs_spec)
 | CNameRt (n : name) (o : name_rt_obs)
@@ -134,7 +161,8 @@ Inductive vcase :=
 | CChunks (d : bspec) (n : N) (out : list bytes)
 | CSendName (e : bytes) (dom : name) (code : N) (qname : name)
 | CObf (v : N) (t : bytes) (publen : N) (ok : bool) (c1 : bytes) (ok2 : bool) (rev : bytes)
-| CReveal (v : N) (c : bytes) (ok : bool) (out : bytes).
+| CReveal (v : N) (c : bytes) (ok : bool) (out : bytes)
+| CAny (nilsrc : bool) (kind dst : N) (url : string) (fields : list N) (ok2 : bool) (fout : list N) (url_after : string).
 
 Definition chk (c : vcase) : bool :=
   match c with
@@ -146,4 +174,5 @@ Definition chk (c : vcase) : bool :=
   | CSendName e dom code qn => let '(c', n') := model_send_name e dom in (code =? c') && name_eqb qn n'
   | CObf v t pl ok c1 ok2 rev => chk_obf v t pl ok c1 ok2 rev
   | CReveal v c ok out => chk_reveal v c ok out
+  | CAny nl k d u f ok2 fo ua => chk_any nl k d u f ok2 fo ua
   end.
